@@ -1004,6 +1004,12 @@ func c02(c *Ctx) {
 		}
 	})
 
+	c.Rule("C02.R9", "a metric taken from the pool starts from the initial state: a recycled metric is fully reset before the lexer fills it (the lexer appends to the metric's own tag buffer and leaves fields it does not parse alone, so anything left over becomes part of the next line's result) - C05.R6's pool obligations, shared", 3, func(r *Rule) {
+		importObligations(c, r, c05, "C05.R6", func(k string) bool {
+			return strings.HasPrefix(k, "Metric.Reset:") || strings.HasPrefix(k, "MetricPool.Get:")
+		})
+	})
+
 	c.Rule("C02.R8", "totality: every line ends in accept or reject - all panic obligations (index, slice, make, conversion-guarded arithmetic) inside the lexer package are discharged (engine of C03.R2 restricted to internal/lexer, with the Stage-A invariant witnesses)", 20, func(r *Rule) {
 		e := newBndEngine(w)
 		var fns []*ssa.Function
